@@ -580,7 +580,7 @@ func (i *interpreter) concretize(sv symV) int64 {
 		if n >= i.opts.MaxConcretize {
 			panic(pathAbort{kind: abortCut, msg: "concretisation bound reached"})
 		}
-		m := i.modelValue(sv.t)
+		m := i.candidate(sv.t)
 		c := tt.bvConst(m, sv.t.sort.w)
 		if i.branch(tt.eq(sv.t, c)) {
 			if kindSigned(sv.k) {
@@ -604,7 +604,7 @@ func (i *interpreter) concValue(v value) value {
 				if n >= i.opts.MaxConcretize {
 					panic(pathAbort{kind: abortCut, msg: "concretisation bound reached"})
 				}
-				m := i.modelValue(x.t)
+				m := i.candidate(x.t)
 				f := math.Float64frombits(m)
 				var c *Term
 				if f != f {
